@@ -56,6 +56,9 @@ pub enum COp {
     Kill(usize),
     Stop(usize),
     Drain(usize),
+    /// ActorCell::stop_children / drain_children of actor i
+    StopKids(usize),
+    DrainKids(usize),
     Inject(usize),
     AbortLoop(usize),
     AbortSpawner(usize),
@@ -497,6 +500,20 @@ pub async fn client(sc: Arc<Scenario>, w: W, ops: Vec<COp>, run_tag: String) {
                     obs("obs.drain", &sc.actors[i].name, 0, vec![]);
                 }
             }
+            COp::StopKids(i) => {
+                let cell = w.lock().unwrap().cells[i].clone();
+                if let Some(c) = cell {
+                    c.stop_children(Some("r".into()));
+                    obs("obs.stop_kids", &sc.actors[i].name, 0, vec![kvs("reason", "r")]);
+                }
+            }
+            COp::DrainKids(i) => {
+                let cell = w.lock().unwrap().cells[i].clone();
+                if let Some(c) = cell {
+                    c.drain_children();
+                    obs("obs.drain_kids", &sc.actors[i].name, 0, vec![]);
+                }
+            }
             COp::Inject(i) => {
                 let cell = w.lock().unwrap().cells[i].clone();
                 if let Some(c) = cell {
@@ -584,7 +601,7 @@ pub async fn client(sc: Arc<Scenario>, w: W, ops: Vec<COp>, run_tag: String) {
 }
 
 const KEEP: &[&str] = &[
-    "obs.cb_enter", "obs.cb_exit", "obs.tick", "obs.yield", "obs.resume", "obs.send", "obs.kill", "obs.stop", "obs.drain",
+    "obs.cb_enter", "obs.cb_exit", "obs.tick", "obs.yield", "obs.resume", "obs.send", "obs.kill", "obs.stop", "obs.drain", "obs.stop_kids", "obs.drain_kids",
     "obs.inject", "obs.abort", "obs.monitor", "obs.unmonitor", "obs.joinpg", "obs.clash", "obs.clash_done", "obs.status", "obs.join_begin", "obs.join_ret", "obs.spawn_call", "obs.spawn_ret", "obs.start_ret",
     "port.stop", "port.sup", "port.msg", "port.drain", "sig.handled", "guard.cleanup", "guard.done", "task.dropped",
     "decode.dropped", "obs.end", "task.panicked", "tl.start",
@@ -808,7 +825,15 @@ pub fn rand_scenario_flavour(rng: &mut Rng, local: bool) -> Scenario {
     for _ in 0..nd {
         let tgt = if three && rng.chance(1, 4) { 2 } else if rng.chance(1, 8) { 0 } else { 1 };
         c1.push(match rng.below(10) {
-            9 => COp::SpawnClash(tgt),
+            9 => {
+                if rng.chance(1, 2) {
+                    COp::SpawnClash(tgt)
+                } else if rng.chance(1, 2) {
+                    COp::StopKids(0)
+                } else {
+                    COp::DrainKids(0)
+                }
+            }
             0 | 1 => COp::Kill(tgt),
             2 | 3 => COp::Stop(tgt),
             4 => COp::Drain(tgt),
@@ -881,6 +906,30 @@ pub fn micro_scenarios() -> Vec<Scenario> {
                 vec![COp::Spawn(0), COp::Spawn(2), COp::Spawn(1), COp::Monitor(2, 1), COp::Send(1), COp::Join(1)],
                 vec![COp::Pause, COp::Stop(1)],
                 vec![COp::Pause, COp::Send(1), COp::AbortLoop(1)],
+            ],
+        },
+        // stop_children / drain_children of the supervisor against the children's own messages
+        Scenario {
+            actors: vec![
+                s(vec![Op::Tick]),
+                a(Script { handle: vec![y()], pstop: vec![Op::Tick], ..Default::default() }, false, false),
+                ActorSpec { name: "C".into(), sup: Some(0), instant: false, helper: false, script: Script { handle: vec![vec![Op::Tick]], ..Default::default() } },
+            ],
+            clients: vec![
+                vec![COp::Spawn(0), COp::Spawn(1), COp::Spawn(2), COp::Send(1), COp::Send(2), COp::Send(1), COp::Join(1), COp::Join(2)],
+                vec![COp::Pause, COp::StopKids(0)],
+            ],
+        },
+        Scenario {
+            actors: vec![
+                s(vec![Op::Tick]),
+                a(Script { handle: vec![y()], pstop: y(), ..Default::default() }, false, false),
+                ActorSpec { name: "C".into(), sup: Some(0), instant: false, helper: false, script: Script { handle: vec![vec![Op::Tick]], ..Default::default() } },
+            ],
+            clients: vec![
+                vec![COp::Spawn(0), COp::Spawn(1), COp::Spawn(2), COp::Send(1), COp::Send(2), COp::Send(1), COp::Join(1), COp::Join(2)],
+                vec![COp::Pause, COp::DrainKids(0), COp::Send(1), COp::Send(2)],
+                vec![COp::Pause, COp::Pause, COp::Stop(2)],
             ],
         },
         // abort of the loop task before its first poll, and right after post_start
